@@ -22,7 +22,7 @@ REDIRECTION_DOMAINS_RE = re.compile(
     re.I,
 )
 YOUTUBE_REDIRECTION_RE = re.compile(r"youtube\.com(?::\d*)?/redirect/?\?", re.I)
-GOOGLE_REDIRECTION_RE = re.compile(r"/url/?\?")
+GOOGLE_REDIRECTION_RE = re.compile(r"/url/?\?", re.I)
 JUNK_CHAR_RE = re.compile(r"[\s\x00-\x1f\x7f-\x9f]", re.UNICODE)
 
 
@@ -89,7 +89,10 @@ def infer_redirection_step(url):
             # NOTE: the pattern is case-insensitive, so must be this test
             if obvious_redirect_match.group(1).lower() == "q":
                 # NOTE: q is not necessarily the first item of the query
-                if not GOOGLE_REDIRECTION_RE.search(url) and "/redirect" not in url:
+                if (
+                    not GOOGLE_REDIRECTION_RE.search(url)
+                    and "/redirect" not in url.lower()
+                ):
                     return None
 
             potential_target = unquote(obvious_redirect_match.group(2))
